@@ -185,3 +185,227 @@ Proof.
   split; [apply RZ_len | apply RZ_order]; exact HR'.
 Qed.
 Print Assumptions C08_posq_iso_step.
+
+(* ===================================================================================
+   LIVENESS half of "every scheduled callback and task step runs exactly once", on the list
+   ready queue of the scheduler model Sched/Model.v (stock / SchedulingMixin loops), for a
+   running loop (AStep-only continuations).  Proofs: Sched/QueuePosition.v (lists),
+   Sched/Liveness08.v, Sched/Liveness08Ops.v, Sched/Liveness08Ex.v.
+   NOTE: from here on the names st, run_one, call_pos, task_reinsert ... are those of
+   Sched/Model.v (they shadow Sched/ListLoop.v) and the default scope is nat.
+
+   ahead s h   = number of handles strictly before (the first occurrence of) h in
+                 rq_items (ready s)  (= the queue length when h is not queued);
+   queued s h  = In h (rq_items (ready s)). *)
+From Coq Require Import QArith.
+From RecordUpdate Require Import RecordUpdate.
+From Asynkit Require Import Sched.Model Sched.Corr Sched.LockLive Sched.LockProgress
+  Sched.QueuePosition Sched.Liveness08 Sched.Liveness08Ops Sched.Liveness08Ex.
+Import RecordSetNotations.
+Open Scope nat_scope.
+
+(* h at the head: the step pops it and - unless it is cancelled, then it is popped and
+   skipped - runs its callback on the rest of the queue *)
+Theorem C08_position_head : forall (s : st) (h : nat) (rest : list nat),
+  ready s = RList (h :: rest) ->
+  do_action s AStep =
+    (let s1 := s <| ready := RList rest |> in
+     if hcancelled (geth s h) then s1 else run_callback (hcb (geth s h)) s1).
+Proof. exact head_step. Qed.
+Print Assumptions C08_position_head.
+
+(* ANY single AStep, h not at the head, queue duplicate-free before and after (hypotheses; the
+   duplicate-freedom of the ready queue of Sched/Model.v is not proved here - C08_exactly_once
+   proves it for the ListLoop model): exact balance of the position measure.  With
+     before q h    = the entries strictly before h in q,
+     newfront r q' h  = number of entries of (before q' h) that are not in (before r h)
+                        (inserted positionally in front of h, or moved there),
+     gonefront r q' h = number of entries of (before r h) that are not in (before q' h)
+                        (removed from in front of h, or moved behind it),
+   ahead after + gonefront + 1 = ahead before + newfront.  In particular with nothing removed
+   in front, [ahead] decreases by exactly one or increases by newfront - 1.  If h is no longer
+   queued afterwards (an operation targeted it) the equation still holds with
+   ahead after = the new queue length. *)
+Theorem C08_position_measure : forall (s : st) (x : nat) (r : list nat) (h : nat),
+  ready s = RList (x :: r) -> x <> h ->
+  let s' := do_action s AStep in
+  NoDup r -> NoDup (rq_items (ready s')) ->
+  ahead s' h + gonefront r (rq_items (ready s')) h + 1 = ahead s h + newfront r (rq_items (ready s')) h.
+Proof. exact step_balance. Qed.
+Print Assumptions C08_position_measure.
+
+(* a step that executes no positional scheduling operation (LockProgress.run_one_np: no
+   call_pos / sleep_insert / task_switch / task_reinsert / task_throw / task_interrupt /
+   timeout interruptor / descend / eager start): h stays queued and [ahead] decreases by
+   exactly one.  No duplicate-freedom needed. *)
+Theorem C08_position_np : forall (s : st) (q : list nat) (h : nat),
+  ready s = RList q -> queued s h -> 0 < ahead s h -> run_one_np s ->
+  queued (do_action s AStep) h /\ ahead (do_action s AStep) h + 1 = ahead s h.
+Proof. exact step_np_ahead. Qed.
+Print Assumptions C08_position_np.
+
+(* what each positional operation does to a queued h (list queue q, h an already allocated
+   handle, i = index of the LAST handle of the target task t'):
+   call_pos(p): +1 exactly when p <= ahead;  sleep_insert: +1 (its callback goes to position 0);
+   task_switch(t', insert_pos): t' to the front (+1, -1 if it was ahead of h already) and, with
+   an insert_pos, the caller's re-insertion callback in front of that (+1); when h IS the handle
+   of t' it becomes the head (second, behind the callback);
+   task_reinsert(t', p) (also the re-insertion callback): -1 if the moved handle was ahead, +1 if
+   p <= the resulting index; h itself moved: after min p (len-1) entries;
+   task_throw(t', e): refused (state unchanged) / t' blocked (append only) / t' runnable: its
+   handle is REMOVED (h: -1 if it was ahead; h itself: no longer queued) and a fresh one appended;
+   cancelling a handle does not touch the queue (the entry is popped and skipped at the head). *)
+Theorem C08_position_ops : forall (s : st) (q : list nat) (h : nat),
+  ready s = RList q -> queued s h -> h <> length (handles s) ->
+  (forall t p n, let s' := fst (lib_call t (OCallPos p n) s) in
+     queued s' h /\ ahead s' h = ahead s h + (if p <=? ahead s h then 1 else 0)) /\
+  (forall t p, let s' := fst (lib_call t (OSleepInsert p) s) in
+     queued s' h /\ ahead s' h = ahead s h + 1) /\
+  (forall t t' p i, find_last (task_key s t') q = Some i ->
+     let s' := fst (lib_call t (OTaskSwitch t' p) s) in
+     let k := match p with None => 0 | Some _ => 1 end in
+     (i <> ahead s h -> nth i q 0 <> h ->
+        queued s' h /\ ahead s' h = ahead s h - (if i <? ahead s h then 1 else 0) + 1 + k) /\
+     (i = ahead s h -> NoDup q -> queued s' h /\ ahead s' h = k)) /\
+  (forall t t' p i, find_last (task_key s t') q = Some i ->
+     let s' := fst (lib_call t (OTaskReinsert t' p) s) in
+     (i <> ahead s h -> nth i q 0 <> h ->
+        let a := ahead s h - (if i <? ahead s h then 1 else 0) in
+        queued s' h /\ ahead s' h = a + (if p <=? a then 1 else 0)) /\
+     (i = ahead s h -> NoDup q -> queued s' h /\ ahead s' h = Nat.min p (length q - 1))) /\
+  (forall t' p p', find_last (task_key s t') q = None ->
+     forall t, lib_call t (OTaskSwitch t' p) s = (s, LDone (RExc EValue)) /\
+               lib_call t (OTaskReinsert t' p') s = (s, LDone (RExc EValue))) /\
+  (forall t' e s' r, task_throw s t' e = (s', r) ->
+     s' = s \/
+     (ready s' = RList (q ++ [length (handles s)]) /\ queued s' h /\ ahead s' h = ahead s h) \/
+     (exists i, find_last (task_key s t') q = Some i /\
+        ready s' = RList (remove_nth q i ++ [length (handles s)]) /\
+        (i <> ahead s h -> queued s' h /\ ahead s' h = ahead s h - (if i <? ahead s h then 1 else 0)) /\
+        (i = ahead s h -> NoDup q -> nth i q 0 = h /\ ~ queued s' h))) /\
+  (forall g, ready (cancel_handle s g) = ready s /\ ahead (cancel_handle s g) h = ahead s h).
+Proof.
+  intros s q h E Hq Hf.
+  split. { intros t p n. exact (call_pos_op_ahead s q t p n h E Hq Hf). }
+  split. { intros t p s'. destruct (sleep_insert_ahead s q t p h E Hq Hf) as (_ & A & B). split; assumption. }
+  split. { intros t t' p i F. exact (task_switch_ahead s q t t' p i h E F Hq Hf). }
+  split. { intros t t' p i F. exact (task_reinsert_op_ahead s q t t' p i h E F Hq). }
+  split. { intros t' p p' F t. split; [exact (task_switch_none s q t t' p E F)|].
+           cbn [lib_call]. now rewrite (task_reinsert_none s q t' p' E F). }
+  split.
+  { intros t' e s' r T. destruct (task_throw_ahead s q t' e s' r h E Hq T) as [A|[A|(i & F & R & A & B)]]; auto.
+    right. right. exists i. split; [exact F|]. split; [exact R|]. split; [exact A|].
+    intros Hi N. now apply B. }
+  intros g. destruct (cancel_handle_ahead s h g) as (A & B & _). split; assumption.
+Qed.
+Print Assumptions C08_position_ops.
+
+(* EVENTUALLY.  Hypotheses about the next n AStep actions from s (all three are Fixpoints over
+   the run s, do_action s AStep, ...; Sched/Liveness08.v):
+     listq n s      the ready queue is a list queue in each of the states;
+     kept n s h     no step takes h out of the queue while it waits behind the head
+                    (h is not targeted by task_switch / task_reinsert / task_throw /
+                    task_interrupt / a timeout - a MOVE of h that leaves it queued is allowed
+                    and accounted for by pushes);
+     pushes n s h <= K   where pushes sums, over the steps at which h waits behind the head,
+                    pushed = ahead after + 1 - ahead before (truncated at 0): how many more
+                    entries are in front of h than the pop alone would leave; by
+                    C08_position_measure this is at most the number of entries inserted in
+                    front of h (pushed_le_newfront), and it is 0 for a step without positional
+                    operations (pushed_np).
+   Then, if n >= ahead s h + K: for some j <= ahead s h + K, h waits in the queue during the
+   first j steps, is the head after them, and step j+1 <= ahead s h + K + 1 pops it and -
+   unless it has been cancelled - runs its callback. *)
+Theorem C08_runs_eventually : forall (n : nat) (s : st) (h K : nat),
+  listq n s -> kept n s h -> pushes n s h <= K -> queued s h -> ahead s h + K <= n ->
+  exists j rest, j <= ahead s h + K /\
+    (forall i, i < j -> queued (steps i s) h /\ 0 < ahead (steps i s) h) /\
+    ready (steps j s) = RList (h :: rest) /\
+    do_action (steps j s) AStep =
+      (let s1 := steps j s <| ready := RList rest |> in
+       if hcancelled (geth (steps j s) h) then s1 else run_callback (hcb (geth (steps j s) h)) s1).
+Proof. exact runs_eventually. Qed.
+Print Assumptions C08_runs_eventually.
+
+(* the hypotheses of C08_runs_eventually hold with K = 0 for runs without positional operations *)
+Theorem C08_runs_eventually_np : forall (n : nat) (s : st) (q : list nat) (h : nat),
+  ready s = RList q -> run_np n s -> pushes n s h = 0 /\ kept n s h /\ listq n s.
+Proof. exact np_pushes. Qed.
+Print Assumptions C08_runs_eventually_np.
+
+(* ... and with a duplicate-free queue [pushed] is bounded by the entries that appeared in front *)
+Theorem C08_pushed_le_inserted : forall (s : st) (x : nat) (r : list nat) (h : nat),
+  ready s = RList (x :: r) -> NoDup (x :: r) -> NoDup (rq_items (ready (do_action s AStep))) ->
+  pushed s h <= newfront r (rq_items (ready (do_action s AStep))) h.
+Proof. exact pushed_le_newfront. Qed.
+Print Assumptions C08_pushed_le_inserted.
+
+(* no positional operation during the first ahead s h steps (run_np): EXACTLY step
+   ahead s h + 1 pops h and runs the callback it had at the start (from
+   C13_handle_runs_within) *)
+Theorem C08_runs_exactly_np : forall (s : st) (q : list nat) (h : nat),
+  ready s = RList q -> queued s h -> h < length (handles s) -> run_np (ahead s h) s ->
+  exists rest, ready (steps (ahead s h) s) = RList (h :: rest) /\
+    do_action (steps (ahead s h) s) AStep =
+      (let s1 := steps (ahead s h) s <| ready := RList rest |> in
+       if hcancelled (geth s1 h) then s1 else run_callback (hcb (geth s h)) s1).
+Proof. exact runs_exactly. Qed.
+Print Assumptions C08_runs_exactly_np.
+
+(* the bound is attained: three tasks; task 0 runs task_switch(task 1, insert_pos=5); handle 2
+   (task 2's first step) has two entries ahead; one entry (the re-insertion callback) is pushed
+   in front of it (K = 1); it is the head after exactly 2 + 1 steps, not before, and step
+   2 + 1 + 1 runs it *)
+Theorem C08_runs_eventually_example :
+  ahead x_s 2 = 2 /\ pushes 3 x_s 2 = 1 /\ listq 3 x_s /\ kept 3 x_s 2 /\ queued x_s 2 /\
+  (forall j, j < 3 -> hd 0 (rq_items (ready (steps j x_s))) <> 2) /\
+  ready (steps 3 x_s) = RList [2; 4; 5] /\
+  hcancelled (geth (steps 3 x_s) 2) = false /\ hcb (geth (steps 3 x_s) 2) = HStep 2 None /\
+  ~ queued (steps 4 x_s) 2.
+Proof.
+  destruct x_ahead as (A & B & _). destruct x_attained as (C & D & E & F & G).
+  split; [exact A|]. split; [exact B|]. split; [exact x_listq|]. split; [exact x_kept|].
+  split; [exact x_queued|]. split; [exact C|]. split; [exact D|]. split; [exact E|].
+  split; [exact F|exact G].
+Qed.
+Print Assumptions C08_runs_eventually_example.
+
+(* The same on the ListLoop model (the model of C08_exactly_once; names qualified because
+   Sched/Model.v shadows them here), where the run invariant J makes the statements unconditional
+   and the safety half is available.  Handles are the integers 0, 1, ...; aheadL s h = number of
+   entries strictly before h in ListLoop.rq s; nextL s = the state after running one handle.
+   (a) one handle from ANY state satisfying J (every reachable state of every program, J_init +
+       run_one_ext): the head x is popped, is not queued afterwards, J is kept, and every other
+       handle h obeys the exact balance - no duplicate-freedom hypothesis. *)
+From Asynkit Require Import Sched.Liveness08List.
+Theorem C08_list_position_measure : forall (s : ListLoop.st) (x : Z) (s' : ListLoop.st),
+  ExactlyOnce.J s -> ListLoop.run_one ListQ s = Some (x, s') ->
+  exists r, ListLoop.rq s = x :: r /\ ExactlyOnce.J s' /\ ~ In x (ListLoop.rq s') /\
+    forall h, h <> x -> (0 <= h)%Z ->
+      aheadL s' h + gonefront (map Z.to_nat r) (map Z.to_nat (ListLoop.rq s')) (Z.to_nat h) + 1 =
+      aheadL s h + newfront (map Z.to_nat r) (map Z.to_nat (ListLoop.rq s')) (Z.to_nat h).
+Proof. exact list_step_balance. Qed.
+Print Assumptions C08_list_position_measure.
+
+(* (b) RUNS EXACTLY ONCE: if during the next n handles no step takes h out of the queue while it
+   waits (keptL) and at most K entries are pushed in front of it (pushesL, as above), n >= ahead + K,
+   then in EVERY run of more than aheadL s h + K handles from s the handle h is executed at an
+   index <= aheadL s h + K and occurs exactly once in the sequence of executed handles. *)
+Theorem C08_list_runs_exactly_once : forall (n : nat) (s : ListLoop.st) (h : Z) (K : nat),
+  ExactlyOnce.J s -> (0 <= h)%Z -> keptL n s h -> pushesL n s h <= K -> In h (ListLoop.rq s) ->
+  aheadL s h + K <= n ->
+  forall fuel, aheadL s h + K < fuel ->
+    count_occ Z.eq_dec (fst (ExactlyOnce.run_trace fuel s)) h = 1 /\
+    exists j, j <= aheadL s h + K /\ nth_error (fst (ExactlyOnce.run_trace fuel s)) j = Some h.
+Proof. exact list_runs_exactly_once. Qed.
+Print Assumptions C08_list_runs_exactly_once.
+
+(* instance: task_switch(task 1, insert_pos=5) pushes one entry in front of handle 2 (ahead 2,
+   K = 1): executed at index 3 of the run, once *)
+Theorem C08_list_runs_example :
+  ExactlyOnce.J l_s /\ aheadL l_s 2 = 2 /\ pushesL 3 l_s 2 = 1 /\ keptL 3 l_s 2 /\
+  In 2%Z (ListLoop.rq l_s) /\
+  fst (ExactlyOnce.run_trace 8 l_s) = [0; 3; 1; 2; 4; 5; 6]%Z /\
+  count_occ Z.eq_dec (fst (ExactlyOnce.run_trace 8 l_s)) 2%Z = 1.
+Proof. exact list_runs_example. Qed.
+Print Assumptions C08_list_runs_example.
